@@ -35,7 +35,8 @@ def run_request(srv, peer, headers):
     """one request on a fresh connection; returns [status, raised, env]"""
     seen = {}
     srv.app_seen = seen
-    conn = srv.connect(peer=(peer, 51000))
+    # (an IPv6 listener: the connection comes in through handle_accept, which may rewrite the peer address)
+    conn = srv.connect(peer=(peer, 51000), via_accept=bool(getattr(srv, "via_accept", False)))
     req = b"GET /p HTTP/1.1\r\nHost: origin.example:8080\r\n" + b"".join(
         n.encode("latin-1") + b": " + v.encode("latin-1") + b"\r\n" for n, v in headers) + b"Connection: close\r\n\r\n"
     conn.feed(req)
@@ -66,7 +67,14 @@ def make_server(cfg):
         kw["trusted_proxy"] = TRUSTED if cfg["tp"] == "addr" else "*"
         kw["trusted_proxy_count"] = cfg["count"]
         kw["trusted_proxy_headers"] = set(cfg["kinds"])
-    srv = syncdrv.SyncServer(app, **kw)
+    if cfg.get("log"):
+        kw["log_untrusted_proxy_headers"] = True
+    if cfg.get("v6"):
+        import socket
+        srv = syncdrv.SyncServer(app, _family=socket.AF_INET6, **kw)
+        srv.via_accept = True
+    else:
+        srv = syncdrv.SyncServer(app, **kw)
     holder["srv"] = srv
     srv.app_seen = {}
     return srv
@@ -169,6 +177,14 @@ def generate(chk, vocab, want_trusted):
                         if not want_trusted and tp == "addr" and j % 7 == 0:
                             cases.append((TRUSTED, h))  # a request of the real proxy in between (state must not leak)
                     groups.append((cfg, cases, vocab))
+                    if not want_trusted and tp == "addr" and clear and count in (1, 2):
+                        # the same cases with untrusted headers logged (a warning per request must not change what is
+                        # cleared), and on an IPv6 listener whose peers have addresses that contain, end in or map to the
+                        # proxy's IPv4 address
+                        some = cases[:: 3 if big else 9]
+                        groups.append((dict(cfg, log=True), some, vocab))
+                        v6peers = ["::" + TRUSTED, "::ffff:" + TRUSTED, "64:ff9b::" + TRUSTED, "2001:db8::1", "::1"]
+                        groups.append((dict(cfg, v6=True), [(v6peers[j % len(v6peers)], h) for j, (_, h) in enumerate(some)], vocab))
     return groups
 
 
